@@ -211,6 +211,10 @@ def stepLine (d : DState) (line : String) : DState × String :=
     | some st, some sid, some bl, some reach, some ls, some lids =>
       (d, acceptStr (accept st sid bl reach ls lids))
     | _, _, _, _, _, _ => (d, "bad-op")
+  | "desire" :: _ =>
+    -- the controller's desired poll interval changes between two ops: no effect on the source's state — the model's
+    -- `handleIncoming` has no desire argument at all, `handleTimer` takes the desire current at that timer
+    (d, "ok" ++ stateStr d.s)
   | "note" :: _ => (d, "ok")      -- implementation-only op (manager API call without model-side effect)
   | "advinit" :: rest =>
     match kvNat? rest "strat", kvNat? rest "rid" with
